@@ -177,6 +177,12 @@ def install(nprocs):
         return f
     wrap(adv.ParallelGradient, "parallel_gradient", pg)
 
+    def df_init(o):
+        def f(self, degree, spline, *a, **k):
+            REC.setdefault("density_splines", []).append([float(spline.domain[0]), float(spline.domain[1]), int(spline.nbasis), bool(spline.periodic), int(degree)])
+            return o(self, degree, spline, *a, **k)
+        return f
+    wrap(ps.DensityFinder, "__init__", df_init)
     wrap(ps.DensityFinder, "getPerturbedRho", lambda o: lambda self, g, r: (_stmt("density", gname(r), gname(g)), o(self, g, r))[1])
     og, of = ps.DiffEqSolver.getModes, ps.DiffEqSolver.findPotential
     ps.DiffEqSolver.getModes = staticmethod(lambda rho: (_stmt("getModes", gname(rho)), og(rho))[1])
@@ -200,7 +206,8 @@ def main():
     stm = REC["stmts"]
     same = all(stm.get(r) == stm.get(0) for r in range(n))
     json.dump({"ok": bool(res.ok), "fault": fault, "stmts": stm.get(0, []), "stmts_same_on_all_ranks": same,
-               "slices": [dict(s, rank=r) for r in sorted(REC["slices"]) for s in REC["slices"][r]]}, sys.stdout)
+               "slices": [dict(s, rank=r) for r in sorted(REC["slices"]) for s in REC["slices"][r]],
+               "density_splines": REC.get("density_splines", [])}, sys.stdout)
 
 
 if __name__ == "__main__":
